@@ -9,6 +9,7 @@ import (
 	"bytes"
 	"fmt"
 	"math/rand"
+	"net"
 	"runtime"
 	"testing"
 	"time"
@@ -56,7 +57,19 @@ func rankState(s memberlist.NodeStateType) int {
 	return 2
 }
 
-var c01Addrs = map[string][]byte{"A1": {10, 9, 0, 1}, "A2": {10, 9, 0, 2}}
+// the two addresses claims carry; a scenario whose configuration says Wide uses their 16-byte (IPv4-in-IPv6) forms
+// throughout, as a transport does that hands net.ParseIP's result through unchanged
+var c01Narrow = map[string][]byte{"A1": {10, 9, 0, 1}, "A2": {10, 9, 0, 2}}
+var c01WideAddrs = map[string][]byte{"A1": net.IP{10, 9, 0, 1}.To16(), "A2": net.IP{10, 9, 0, 2}.To16()}
+var c01Addrs = c01Narrow
+
+// sameIP: the same address whatever its byte length (an implementation may store IPv4 in either form)
+func sameIP(a, b []byte) bool {
+	if len(a) == 0 || len(b) == 0 {
+		return len(a) == len(b)
+	}
+	return net.IP(a).Equal(net.IP(b))
+}
 
 func vsnOf(s string) []uint8 {
 	switch s {
@@ -164,7 +177,7 @@ func judgeC01(c claim, before, after Snapshot, reclaim time.Duration, now time.T
 	mb, okb := before.Members[c.Node]
 	ma, oka := after.Members[c.Node]
 	membersSame := okb == oka && mb == ma
-	addrDiff := rb != nil && kind == ckAlive && (!bytes.Equal(rb.Addr, c01Addrs[c.Addr]) || rb.Port != 7946)
+	addrDiff := rb != nil && kind == ckAlive && (!sameIP(rb.Addr, c01Addrs[c.Addr]) || rb.Port != 7946)
 
 	// absent record: only an alive claim may create it
 	if rb == nil {
@@ -276,7 +289,7 @@ func judgeC01(c claim, before, after Snapshot, reclaim time.Duration, now time.T
 		want.State = memberlist.StateLeft
 		want.HasTimer = false
 	}
-	if ra == nil || ra.Incarnation != want.Incarnation || ra.State != want.State || !bytes.Equal(ra.Addr, want.Addr) || ra.Port != want.Port ||
+	if ra == nil || ra.Incarnation != want.Incarnation || ra.State != want.State || !sameIP(ra.Addr, want.Addr) || ra.Port != want.Port ||
 		!bytes.Equal(ra.Meta, want.Meta) || ra.Vsn != want.Vsn || ra.HasTimer != want.HasTimer {
 		return fail("fresh/misapplied/"+kind+"-on-"+StateNames[rb.State], "record changed into something the claim does not describe (expected [%s])", recString(&want))
 	}
@@ -291,13 +304,18 @@ type c01Cfg struct {
 	// the node has an Alive delegate whose callback yields the processor many times (it must not sleep:
 	// the code calls it under its node lock), opening a window for whatever else is runnable
 	AliveYield bool
+	Wide       bool // member addresses travel as 16-byte IPv4
 }
 
 func (c c01Cfg) String() string {
-	return fmt.Sprintf("label=%q enc=%v comp=%v reclaim=%v alive-delegate=%v", c.Label, c.Enc, c.Compress, c.Reclaim, c.AliveYield)
+	return fmt.Sprintf("label=%q enc=%v comp=%v reclaim=%v alive-delegate=%v wide-addresses=%v", c.Label, c.Enc, c.Compress, c.Reclaim, c.AliveYield, c.Wide)
 }
 
 func newC01Rig(seed int64, cfg c01Cfg) (*Rig, *FakePeer, *FakePeer, error) {
+	c01Addrs = c01Narrow
+	if cfg.Wide {
+		c01Addrs = c01WideAddrs
+	}
 	var key []byte
 	if cfg.Enc {
 		key = bytes.Repeat([]byte{7}, 16)
@@ -364,7 +382,7 @@ func c01Step(run *Run, rig *Rig, x *FakePeer, c claim, reclaim time.Duration, co
 	addrRel := "-"
 	if c.Kind == ckAlive && rb != nil {
 		addrRel = "same"
-		if !bytes.Equal(rb.Addr, c01Addrs[c.Addr]) {
+		if !sameIP(rb.Addr, c01Addrs[c.Addr]) {
 			addrRel = "diff"
 		}
 	}
@@ -437,7 +455,7 @@ func absOf(r *memberlist.VerifRecord) absRec {
 	}
 	a := absRec{present: true, inc: r.Incarnation, rank: rankState(r.State), left: r.State == memberlist.StateLeft, meta: string(r.Meta)}
 	for n, b := range c01Addrs {
-		if bytes.Equal(b, r.Addr) {
+		if sameIP(b, r.Addr) {
 			a.addr = n
 		}
 	}
@@ -561,7 +579,8 @@ func TestC01(t *testing.T) {
 	run.Assume("incarnation-0 alive about an unknown name leaves an invisible placeholder (treated as absent)", "push/pull entries in state dead count as suspicions (hearsay rule)", "probing disabled (ProbeInterval 1h) so suspicion timers do not expire inside a sequence")
 
 	cfgs := []c01Cfg{
-		{"", false, false, 0, false}, {"", false, false, 5 * time.Second, false}, {"lbl", true, false, 5 * time.Second, false}, {"", false, true, 5 * time.Second, true}, {"lbl", false, false, 0, true},
+		{"", false, false, 0, false, false}, {"", false, false, 5 * time.Second, false, false}, {"lbl", true, false, 5 * time.Second, false, false}, {"", false, true, 5 * time.Second, true, false}, {"lbl", false, false, 0, true, false},
+		{"", false, false, 5 * time.Second, false, true}, {"", false, false, 0, true, true},
 	}
 	// ---- explicit cross product ----
 	carriers := []string{"packet", "compound", "compress", "pp", "ppjoin"}
@@ -572,6 +591,9 @@ func TestC01(t *testing.T) {
 		}
 		run.Journal(id, "")
 		cfg := cfgs[1+ci%3]
+		if ci == 3 {
+			cfg = cfgs[5] // member addresses in their 16-byte form
+		}
 		var results []*c01Result
 		var trace []claim
 		err := Bubble(t, func() {
